@@ -84,7 +84,8 @@ impl Report {
     }
     pub fn sample(&mut self, every: u64, v: impl FnOnce() -> Value) {
         // Keep a few, spread over the enumeration.
-        if self.samples.len() < 4 && self.evaluations % every == 0 {
+        // the first case of a shard is always kept, so that a shard with few cases still shows one
+        if self.samples.is_empty() || (self.samples.len() < 4 && self.evaluations % every == 0) {
             self.samples.push(v());
         }
     }
